@@ -149,7 +149,17 @@ func XML(t *simkit.Tape, o *simkit.Outcome, full bool) {
 	// 3. every truncation offset (torn file / crash of the producer)
 	law := t.Draw(3) // 0: all at once, 1: drawn chunking, 2: one byte
 	inside := 0
+	// every offset for ordinary documents; for padded (multi-KiB) ones every offset
+	// outside the padding comment plus a sample inside it
+	stride := 1
+	if len(data) > 2500 {
+		stride = 1 + len(data)/600
+		o.Probe("long-document-offsets-sampled")
+	}
 	for k := 0; k < len(data); k++ {
+		if stride > 1 && k%stride != 0 && !(k > len(data)-700) && k > 64 {
+			continue
+		}
 		prefix := data[:k]
 		var d *simio.Delivery
 		switch law {
@@ -196,6 +206,9 @@ func XML(t *simkit.Tape, o *simkit.Outcome, full bool) {
 
 	// 4. read error at every offset
 	for k := 0; k <= len(data); k++ {
+		if stride > 1 && k%stride != 0 && !(k > len(data)-700) && k > 64 {
+			continue
+		}
 		d := simio.AllAtOnce(data)
 		d.FailAt = k
 		d.FailErr = simio.FailErr(k)
